@@ -78,3 +78,30 @@ def replay_witnesses(ctx, driver_sources=("gen_driver.c", "ops_gen_core.c", "ref
             else: ctx.log(f"note: witness module of {f['id']} rejected by asn1c")
         finally:
             b.cleanup()
+
+def replay_fixed_witnesses(ctx, driver_sources=("gen_driver.c", "ops_gen_core.c", "reflect.c")):
+    """Regression: the module/type/op witness of every *fixed* finding of this property must no longer show the defect
+    (`witness.expect`, the regular expression of the defective output, must not match) on the working tree."""
+    n = 0
+    for f in ctx.findings:
+        w = f.get("witness", {})
+        if f.get("status") != "fixed" or f.get("property") != ctx.prop: continue
+        if "module" not in w or not w.get("op") or not w.get("expect"): continue
+        names = w.get("types") or re.findall(r"(\w+)\s*::=", w["module"].split("BEGIN", 1)[1])
+        b = bundle.Bundle("x" + f["id"], w["module"], names, driver_sources=driver_sources, **({"opts": tuple(w["opts"])} if w.get("opts") else {}))
+        try:
+            exe = b.build()
+            line = f"@{w.get('type', names[0])} {w['op']}"
+            outs, _ = ctx.run_c_bisect(exe, [line])
+            o = str(outs[0] or "CRASH")
+            n += 1; ctx.cov["evaluations"] += 1
+            if re.search(w["expect"], o):
+                ctx.violation(f"{ctx.prop}: fixed finding {f['id']} reproduces again on its witness: {line[:200]} -> {o[:200]} ({f['what'][:160]})",
+                              {"module": w["module"], "type": w.get("type", names[0]), "op": line, "c_output": o[:2000], "finding": f["id"]})
+            else: ctx.count_nontrivial(("fixed-witness", f["id"]))
+        except (bundle.Asn1cFailed, build.BuildError) as e:
+            ctx.log(f"note: witness module of fixed finding {f['id']} does not build: {str(e)[-160:]}")
+        finally:
+            b.cleanup()
+    ctx.cov["predicate"]["fixed_witnesses_replayed"] = n
+    return n
